@@ -9,7 +9,7 @@ PROPERTY = "C05"
 RULE = ("standard: StandardCombi on {Trapezoidal(boundary T/F), ClenshawCurtis, GaussLegendre, Simpson, Leja, Lagrange, BSpline} grids, d 1-3, "
         "1<=lmin<=lmax<=lmin+3, vector-valued arbitrary integrand; dimadaptive: DimAdaptiveCombi (maxv=2) with drawn tolerance and point "
         "limit; dw / es: dimension-wise (all versions, rebalancing, boundary; global trapezoidal, high-order, Romberg, Lagrange and B-spline grids) and extend-split (version 0) runs driven by a scripted "
-        "decision tape and stopped cleanly by a drawn max_evaluations or (a fifth of the cases) by the documented max_time rule under a clock owned by the harness whose readings advance by a drawn tick tape; a third of all cases in every sub uses the box in other units (whole box or single dimensions scaled by 2^-30 .. 2^20, tolerances relative to the volume), standard trapezoidal grids also with integrator=old, with and without reevaluate_at_end. Oracle: the reported value "
+        "decision tape and stopped cleanly by a drawn max_evaluations, by the tolerance rule (tolerance = an error value observed in a twin run; then continued with tol=-1) or (a fifth of the cases) by the documented max_time rule under a clock owned by the harness whose readings advance by a drawn tick tape; a third of all cases in every sub uses the box in other units (whole box or single dimensions scaled by 2^-30 .. 2^20, tolerances relative to the volume), standard trapezoidal grids also with integrator=old, with and without reevaluate_at_end. Oracle: the reported value "
         "equals sum_grids c * sum_i w_i f(p_i) recomputed from the public points and weights (per area for extend-split; "
         "grid.integrate per component for hierarchical grids), equals get_points_and_weights() applied to f (nodal grids), equals "
         "evaluate_final_combi(), and is unchanged by reevaluate_at_end. Non-trivial = (standard) d>=2 and lmax>lmin; (dimadaptive) at "
@@ -279,8 +279,19 @@ def run_adaptive(case):
         if store is not None:
             with drive.quiet():
                 expected_store[int(sa.get_total_num_points())] = np.array(sa.operation.get_result(), dtype=float)
-    res, _ = drive.run_history(sa, case, on_eval=on_eval, before_refine=before_refine, after_refine=after_refine, clean_stop=True,
+    tol = -1
+    if case.get("tolstop") is not None and case.get("extra") and not case.get("clock"):
+        # first stop caused by the TOLERANCE rule (then continued with a tighter one): the tolerance is an error value observed
+        # in a twin run without tolerance, so the run stops at the first evaluation whose error is at most that value
+        sa0, op0 = (build(case, _integrand(case)[1], grid=make_global_grid(case)) if kind == "dw" else build(case, _integrand(case)[1], grid=_es_grid(case)))
+        drive.run_history(sa0, case, clean_stop=True, reevaluate_at_end=False)
+        E0 = [float(x) for x in sa0.error_array]
+        if len(E0) >= 2 and all(np.isfinite(E0)):
+            tol = E0[case["tolstop"] % (len(E0) - 1)] * (1 + 1e-9)
+    res, _ = drive.run_history(sa, case, on_eval=on_eval, before_refine=before_refine, after_refine=after_refine, clean_stop=True, tol=tol,
                                reevaluate_at_end=False, **({} if store is None else dict(solutions_storage=store)))
+    if tol != -1 and res is not None:
+        out.cls("first-stop-by-" + ("tolerance" if int(res[6][-1]) <= int(case["maxev"]) else "point-limit"))
     if res is None:
         out.cls("ended-by-step-cap")    # no regular stop was reached within 30 steps: nothing is reported by the library
         return out
@@ -416,6 +427,7 @@ def dw_strategy(tier):
         c = draw(drive.st_dw_case(tier=tier))
         c["nout"] = draw(st.integers(1, 3))
         c["extra"] = draw(st.sampled_from([0, 0, 1, 10, 40]))
+        c["tolstop"] = draw(st.one_of(st.none(), st.integers(0, 20)))
         c["dwgrid"] = draw(st.sampled_from(["trapezoidal", "trapezoidal", "trapezoidal", "highorder", "highorder", "romberg", "lagrange", "bspline"]))
         c["max_degree"] = draw(st.integers(2, 4))
         if draw(st.integers(0, 4)) == 0:
@@ -446,6 +458,7 @@ def es_strategy(tier):
         c = draw(drive.st_es_case(tier=tier, versions=(0,)))
         c["nout"] = draw(st.integers(1, 2))
         c["extra"] = draw(st.sampled_from([0, 0, 1, 20, 80]))
+        c["tolstop"] = draw(st.one_of(st.none(), st.integers(0, 20)))
         if draw(st.integers(0, 4)) == 0:
             # documented stopping rule max_time with a clock owned by the harness (drive.FakeClock): the budget runs out at a
             # drawn reading of the clock - before / after an evaluation or inside a refinement step
